@@ -5,6 +5,7 @@ import (
 	"bytes"
 	"encoding/base64"
 	"fmt"
+	"os"
 	"sort"
 	"testing"
 	"time"
@@ -15,7 +16,9 @@ import (
 	"github.com/gdamore/tcell/v2/terminfo"
 	"pgregory.net/rapid"
 
+	"verifharness/internal/faketty"
 	"verifharness/internal/inref"
+	"verifharness/internal/live"
 	"verifharness/internal/pbt"
 )
 
@@ -446,14 +449,212 @@ func embedProp(c EmbedCase) error {
 	return nil
 }
 
+// ---------------------------------------------------------------- production timer path
+
+// TimerCase: bytes that end in an incomplete sequence are sent through a real
+// screen (fake tty, real goroutines, the real 50 ms escape timer); once the
+// timer expires the buffered bytes must come out, exactly as the synchronous
+// hook's expiring scan delivers them.
+type TimerCase struct {
+	Entry string `json:"entry"`
+	Data  []byte `json:"data"`
+}
+
+func timerProp(c TimerCase) error {
+	e, err := info(c.Entry)
+	if err != nil {
+		return err
+	}
+	want, err := run(e, "UTF-8", [][]byte{c.Data})
+	if err != nil {
+		return err
+	}
+	os.Setenv("LC_ALL", "en_US.UTF-8")
+	cp := *e.TI
+	cp.PadChar = ""
+	tty := faketty.New(80, 24)
+	s, err := tcell.NewTerminfoScreenFromTtyTerminfo(tty, &cp)
+	if err != nil {
+		return fmt.Errorf("harness: %v", err)
+	}
+	if err := s.Init(); err != nil {
+		return fmt.Errorf("harness: %v", err)
+	}
+	defer s.Fini()
+	for s.HasPendingEvent() {
+		s.PollEvent()
+	}
+	tty.Feed(c.Data)
+	var got []inref.Ev
+	deadline := time.Now().Add(3 * time.Second)
+	for len(got) < len(want.evs) && time.Now().Before(deadline) {
+		if s.HasPendingEvent() {
+			got = append(got, inref.From(s.PollEvent()))
+		} else {
+			time.Sleep(time.Millisecond)
+		}
+	}
+	// nothing further may arrive
+	time.Sleep(80 * time.Millisecond)
+	for s.HasPendingEvent() {
+		got = append(got, inref.From(s.PollEvent()))
+	}
+	if !inref.Equal(got, want.evs) {
+		return fmt.Errorf("%s: %q through the real screen (50 ms escape timer) delivered %s within 3s, the expiring scan gives %s", c.Entry, c.Data, inref.Show(got), inref.Show(want.evs))
+	}
+	return nil
+}
+
+func timerSweep(t *testing.T) {
+	sw := pbt.NewSweep(t, "timer-flush")
+	var rc TimerCase
+	if pbt.ReplayCase("timer-flush", &rc) {
+		sw.Case(true, 1, func() any { return rc }, pbt.Safe(func() error { return timerProp(rc) }), nil)
+		pbt.Note(true, 2)
+		return
+	}
+	if sw.Skip() {
+		return
+	}
+	datas := []string{"\x1b", "\x1b[", "\x1bO", "a\x1b", "\x1b[<0;1", "\x1b]52;c;QUJD", "\x1b[1;", "xy\x1b[20", "\xe4\xb8", "\x1b\x1b", "\x1b[M ", "\x1b[I\x1b[", "\x1b[200~ab\x1b[201"}
+	ents := []string{"xterm", "linux", "rxvt-unicode", "vt100"}
+	if pbt.Thorough() {
+		ents = append(ents, "screen", "st", "konsole", "wy60", "ansi", "xterm-kitty")
+	}
+	item := 0
+	for _, en := range ents {
+		for _, d := range datas {
+			item++
+			if !sw.Mine(item) {
+				continue
+			}
+			c := TimerCase{Entry: en, Data: []byte(d)}
+			sw.Case(true, pbt.HashStr("timer", en, d), func() any { return c }, pbt.Safe(func() error { return timerProp(c) }), nil)
+		}
+	}
+}
+
+// ---------------------------------------------------------------- the real read pipeline
+
+// LiveCase: complete tokens delivered in several tty reads (each read ends at a
+// token boundary, so the escape timer is not involved) through a real screen
+// with its input and main goroutines; the application polls only after the
+// pipeline is saturated. Expected: exactly what the synchronous decoder gives
+// for the whole byte string.
+type LiveCase struct {
+	Entry  string   `json:"entry"`
+	Tokens [][]byte `json:"tokens"`
+	PerRd  []int    `json:"tokens_per_read"`
+	Defer  bool     `json:"defer_poll"`
+}
+
+func genLive(t *rapid.T) LiveCase {
+	c := LiveCase{Entry: rapid.SampledFrom([]string{"xterm", "xterm-256color", "linux", "rxvt-unicode", "screen", "st", "vt220", "konsole"}).Draw(t, "entry")}
+	e, err := info(c.Entry)
+	if err != nil {
+		t.Fatalf("%v", err)
+	}
+	n := rapid.IntRange(1, 90).Draw(t, "ntok")
+	for i := 0; i < n; i++ {
+		var tok []byte
+		switch rapid.IntRange(0, 5).Draw(t, "k") {
+		case 0, 1, 2:
+			tok = []byte(string(rune(0x4E00 + i)))
+		case 3:
+			tok = []byte{byte('a' + i%26)}
+		case 4:
+			var keys []string
+			for _, k := range e.Keys {
+				if len(k) >= 3 && k[0] == 0x1b {
+					keys = append(keys, k)
+				}
+			}
+			if len(keys) > 0 {
+				tok = []byte(rapid.SampledFrom(keys).Draw(t, "key"))
+			} else {
+				tok = []byte("k")
+			}
+		default:
+			if e.Mouse {
+				tok = []byte(fmt.Sprintf("\x1b[<0;%d;%dM", i%70+1, i/70+1)) // inside 80x24, the size both decoders clip to
+			} else {
+				tok = []byte("m")
+			}
+		}
+		c.Tokens = append(c.Tokens, tok)
+	}
+	left := n
+	for left > 0 {
+		k := rapid.IntRange(1, 4).Draw(t, "perread")
+		if k > left {
+			k = left
+		}
+		c.PerRd = append(c.PerRd, k)
+		left -= k
+	}
+	c.Defer = rapid.IntRange(0, 3).Draw(t, "defer") != 0
+	return c
+}
+
+func liveProp(c LiveCase) error {
+	e, err := info(c.Entry)
+	if err != nil {
+		return err
+	}
+	var all []byte
+	for _, tk := range c.Tokens {
+		all = append(all, tk...)
+	}
+	want, err := run(e, "UTF-8", [][]byte{all})
+	if err != nil {
+		return err
+	}
+	var reads [][]byte
+	i := 0
+	for _, k := range c.PerRd {
+		var rd []byte
+		for j := 0; j < k && i < len(c.Tokens); j++ {
+			rd = append(rd, c.Tokens[i]...)
+			i++
+		}
+		for len(rd) > 120 { // a Read hands over at most 128 bytes
+			reads = append(reads, rd[:1])
+			rd = rd[1:]
+		}
+		reads = append(reads, rd)
+	}
+	got, err := live.RunReads(e.TI, "UTF-8", reads, c.Defer, len(want.evs))
+	if err != nil {
+		return err
+	}
+	if !inref.Equal(got, want.evs) {
+		k := 0
+		for k < len(got) && k < len(want.evs) && got[k] == want.evs[k] {
+			k++
+		}
+		g, w := "<none>", "<none>"
+		if k < len(got) {
+			g = got[k].String()
+		}
+		if k < len(want.evs) {
+			w = want.evs[k].String()
+		}
+		return fmt.Errorf("%s: %d tokens in %d reads (polling deferred: %v) through the real screen: %d events delivered, one read decodes to %d; first difference at %d: got %s want %s", c.Entry, len(c.Tokens), len(reads), c.Defer, len(got), len(want.evs), k, g, w)
+	}
+	return nil
+}
+
 func TestProp(t *testing.T) {
 	defer pbt.Recover(t)
 	loadEntries()
-	pbt.Describe("partition: rapid byte strings (token grammar: keys of the entry's real key table, SGR/X11 mouse reports, paste brackets, focus reports, OSC 52 replies with BEL/ST and valid/invalid base64, UTF-8 text, lone ESC, control and invalid bytes, sequence prefixes; mutated tokens; arbitrary bytes) x registered entries x charsets x read partitions (incl. every byte alone), decoded by the production collectEventsFromInput through the synchronous verif hook: one read + expiry vs the partition + expiry must give equal events, zero leftover, no panic, no stall; embed: text A + one complete recognised token + text B with expected events computed independently (runes of A, the token's event, runes of B). Non-trivial = >= 2 chunks with a cut strictly inside a multi-byte token; distinct = hash of the case.",
+	pbt.Describe("partition: rapid byte strings (token grammar: keys of the entry's real key table, SGR/X11 mouse reports, paste brackets, focus reports, OSC 52 replies with BEL/ST and valid/invalid base64, UTF-8 text, lone ESC, control and invalid bytes, sequence prefixes; mutated tokens; arbitrary bytes) x registered entries x charsets x read partitions (incl. every byte alone), decoded by the production collectEventsFromInput through the synchronous verif hook: one read + expiry vs the partition + expiry must give equal events, zero leftover, no panic, no stall; embed: text A + one complete recognised token + text B with expected events computed independently (runes of A, the token's event, runes of B); live-reads: complete tokens (more than both internal queues hold) delivered in many tty reads through a real screen with its goroutines while the application defers polling, compared with the synchronous decode of the whole string; timer-flush: inputs ending in an incomplete sequence sent through a real screen (fake tty, real goroutines): once the production 50 ms escape timer expires the buffered bytes must come out exactly as the expiring scan of the hook delivers them. Non-trivial = >= 2 chunks with a cut strictly inside a multi-byte token; distinct = hash of the case.",
 		"no escape timeout expires between the chunks of one case (the hook scans synchronously); one expiring scan ends every case",
 		"what a malformed sequence decodes to is unspecified: only partition independence, zero leftover and no panic/stall apply to it",
 		"a scan that does not return within 10 s counts as a stall")
 	pbt.Check(t, "partition", pbt.Pick(40000, 600000), pbt.Spec[Case]{Gen: genCase, Prop: prop, NonTrivial: nonTrivial, Classes: classes})
+	timerSweep(t)
+	pbt.Check(t, "live-reads", pbt.Pick(120, 3000), pbt.Spec[LiveCase]{Gen: genLive, Prop: liveProp,
+		NonTrivial: func(c LiveCase) bool { return len(c.Tokens) > 25 && len(c.PerRd) > 3 && c.Defer }})
 	pbt.Check(t, "embed", pbt.Pick(15000, 200000), pbt.Spec[EmbedCase]{Gen: genEmbed, Prop: embedProp,
 		NonTrivial: func(c EmbedCase) bool { return len(c.Cuts) > 0 && (c.A != "" || c.B != "") }})
 }
